@@ -87,6 +87,12 @@ def set (a : Arr2 β) (i j : Int) (v : β) : Option (Arr2 β) :=
   if 0 ≤ i ∧ 0 ≤ j ∧ i.toNat < a.rows ∧ j.toNat < a.cols then some (a.upd i.toNat j.toNat v)
   else none
 
+/-- `*p++ = v` through a cursor `p` into the array's data: the flat (row-major) cell `pos` -/
+def setAt (a : Arr2 β) (pos : Int) (v : β) : Option (Arr2 β) :=
+  if 0 ≤ pos ∧ pos.toNat < a.rows * a.cols then
+    some { a with cells := a.cells.setIfInBounds pos.toNat (some v) }
+  else none
+
 /-- the slice `a[:stop]`; `stop` outside `0 … rows` is refused (numpy would wrap / clip it) -/
 def take (a : Arr2 β) (stop : Int) : Option (Arr2 β) :=
   if 0 ≤ stop ∧ stop.toNat ≤ a.rows then
